@@ -279,7 +279,8 @@ class CallbacksExecutor:
         self.items_already_seen = set()
 
     def __iter__(self):
-        return iter(self.items)
+        # a snapshot: a callback may attach a listener, which adds to this very list
+        return iter(tuple(self.items))
 
     def __repr__(self):
         return f"{type(self).__name__}({self.items!r})"
